@@ -15,6 +15,7 @@ SCHEMA = {
     "e": [("g", "i", True), ("z", "f", True)],
     "f": [("g", "i", True), ("x", "f", True), ("y", "f", True)],
     "k": [("k", "i", True), ("z", "f", True)],
+    "q": [("j1", "f", True), ("j2", "f", True), ("z", "f", True)],
 }
 D = "TableDescription(table_name='d', column_names=['g', 'x', 'y'])"
 E = "TableDescription(table_name='e', column_names=['g', 'z'])"
